@@ -15,7 +15,8 @@ package main
 //     HTTPServer.ServeHTTP;
 //   - http.Error(w, msg, code) = w.WriteHeader(code); w.Write(msg + "\n");
 //   - io.LimitReader / io.NopCloser / ioutil.NopCloser are transparent wrappers
-//     (limits are not modelled: MaxContentLength is left unset by the harness);
+//     except that a LimitReader whose limit is below the length of the JSON value makes
+//     the decoder fail with (unexpected) EOF;
 //   - json.NewDecoder over such a wrapped reader (or over a struct embedding an
 //     io.Reader, like the codec's rwc) decodes the one JSON value the
 //     underlying bytes.Reader holds, then reports EOF; json.NewEncoder over a
@@ -28,6 +29,7 @@ import (
 
 type readerWrap struct {
 	inner Value
+	limit *Term // io.LimitReader: at most this many bytes are readable (nil: no limit)
 }
 
 func (r *readerWrap) implements(it *types.Interface) bool { return true }
@@ -40,8 +42,9 @@ func (r *readerWrap) invoke(m *Machine, g *Goroutine, method string, args []Valu
 }
 
 type jsonOneShot struct {
-	data Value
-	done bool
+	data  Value
+	done  bool
+	limit *Term // the tightest io.LimitReader on the way to the data
 }
 
 func structFieldIndex(t types.Type, name string) int {
@@ -61,12 +64,20 @@ func structFieldIndex(t types.Type, name string) int {
 // It returns the innermost value and how many layers were removed.
 func (m *Machine) ioResolve(v Value, field string) (Value, int) {
 	depth := 0
+	m.lastIOLimit = nil
 	for i := 0; i < 8; i++ {
 		iv, ok := v.(IfaceVal)
 		if !ok || iv.typ == nil {
 			return v, depth
 		}
 		if w, ok := iv.v.(*readerWrap); ok {
+			if w.limit != nil {
+				if m.lastIOLimit == nil {
+					m.lastIOLimit = w.limit
+				} else {
+					m.lastIOLimit = tIte(tLe(w.limit, m.lastIOLimit), w.limit, m.lastIOLimit)
+				}
+			}
 			v = w.inner
 			depth++
 			continue
@@ -166,7 +177,12 @@ func init() {
 		}
 		return IfaceVal{typ: m.ld.ctxMarker, v: &readerWrap{inner: a[0]}}
 	}
-	regV("io.LimitReader", wrap)
+	regV("io.LimitReader", func(m *Machine, g *Goroutine, a []Value) Value {
+		if iv, ok := a[0].(IfaceVal); !ok || iv.typ == nil {
+			return a[0]
+		}
+		return IfaceVal{typ: m.ld.ctxMarker, v: &readerWrap{inner: a[0], limit: a[1].(*Term)}}
+	})
 	regV("io.NopCloser", wrap)
 	regV("io/ioutil.NopCloser", wrap)
 
@@ -262,7 +278,7 @@ func init() {
 		inner, depth := m.ioResolve(c.args[0], "Reader")
 		if depth > 0 {
 			if br := m.bytesReaderOf(inner); br != nil {
-				return m.nativePtr(&jsonOneShot{data: br.data}, "jsononeshot"), stNext
+				return m.nativePtr(&jsonOneShot{data: br.data, limit: m.lastIOLimit}, "jsononeshot"), stNext
 			}
 			if streamOf(inner) != nil {
 				c.args[0] = inner
@@ -280,6 +296,21 @@ func init() {
 			return m.newErrorValue("EOF"), stNext
 		}
 		d.done = true
+		if d.limit != nil {
+			// a limit below the length of the value cuts it short: the decoder sees EOF inside (or before) it
+			var ln *Term
+			if bl := blobOf(d.data); bl != nil {
+				ln = m.blobLen(bl)
+			} else if b, ok := concreteBytes(d.data); ok {
+				ln = mkInt(int64(len(b)))
+			}
+			if ln != nil && m.branch(tLt(d.limit, ln)) {
+				if m.branch(tLe(d.limit, mkInt(0))) {
+					return m.newErrorValue("EOF"), stNext
+				}
+				return m.newErrorValue("unexpected EOF"), stNext
+			}
+		}
 		if b, ok := concreteBytes(d.data); ok {
 			if len(b) == 0 {
 				return m.newErrorValue("EOF"), stNext
